@@ -8,6 +8,9 @@ import IbicusModel.Props.C12
 #print axioms Props.C12.stores_listed
 #print axioms Props.C12.callArgs_classified
 #print axioms Props.C12.rng_sites_guarded
+#print axioms Props.C12.generator_moves_only_under_guard
+#print axioms Props.C12.deterministic_leaves_generator_untouched
+#print axioms Props.C12.draw_sites_tied
 #print axioms Props.C12.trusted_alias_classification
 -- property theorems: (B) instance model
 #print axioms Props.C12.selfAssigns_in_post_init
@@ -16,6 +19,12 @@ import IbicusModel.Props.C12
 #print axioms Props.C12.apply_settings_fixed
 #print axioms Props.C12.output_depends_only_on
 #print axioms Props.C12.apply_repeatable
+#print axioms Props.C12.apply_state_fixpoint
+#print axioms Props.C12.applyLocation_state
+#print axioms Props.C12.mixed_repeatable
+#print axioms Props.C12.applyLocation_repeatable
+#print axioms Props.C12.deterministic_any_draws
+#print axioms Props.C12.excursion_invisible
 #print axioms Props.C12.qdm_cdf_threshold_sticky
 -- the lemmas the property theorems stand on
 #print axioms Lemmas.Purity.check_sound
